@@ -223,7 +223,11 @@ def run_case(case, rec):
         shapes_used.append(shape)
         fjs.append(fj)
         fnps.append(fn)
-    cname = {"dirichlet": "dirichlet", "neumann": "von neumann", None: None}
+    # every accepted spelling of the two condition types (the constructor validates them case-insensitively)
+    sp_d = ["dirichlet", "Dirichlet", "DIRICHLET"][case["seed"] % 3]
+    sp_n = ["von neumann", "Von Neumann", "vonneumann", "VonNeumann", "VON NEUMANN"][case["seed"] % 5]
+    cname = {"dirichlet": sp_d, "neumann": sp_n, None: None}
+    rec.count("condition_spelling_%s" % ("lower" if (sp_d.islower() and sp_n == "von neumann") else "other"))
 
     def dimspec(c):
         if case["int_dim"] and c[1] - c[0] == 1:
